@@ -6,6 +6,7 @@ import (
 	"encoding/binary"
 	"encoding/json"
 	"fmt"
+	"math"
 	"math/big"
 	"strings"
 
@@ -82,6 +83,14 @@ func (p *Pegnet) InsertRates(tx *sql.Tx, height uint32, rates []opr.AssetUint, p
 
 	ratePEG := new(big.Int)
 	for i := range rates {
+		// A price that does not fit a signed 64-bit integer can neither be
+		// stored (database/sql refuses it, which failed the block on every
+		// attempt) nor be computed with (conversions work in int64). Records
+		// carrying one are not rejected by the graders, and a staking record
+		// only has to name a top holder: the asset has no price in this block.
+		if rates[i].Value > math.MaxInt64 {
+			rates[i].Value = 0
+		}
 		if rates[i].Name == "PEG" {
 			ratePEG.SetUint64(rates[i].Value)
 			continue
